@@ -119,6 +119,7 @@ type DistModel struct {
 	// per block observations for C18
 	LastInflow map[string]RatCoins // sub-distributor name -> inflow of the last block
 	LastToMain map[string]RatCoins // part of that inflow left in MAIN (shares/primary with MAIN destination)
+	known      map[string]DAcc     // accounts of all configurations so far, by key
 }
 
 func NewDistModel(cfg DCfg, addrOf func(DAcc) string) *DistModel {
@@ -298,8 +299,13 @@ func (m *DistModel) Block(fault FaultFn, implLeft func(key, denom string) *big.R
 	}
 }
 
+// accByKey: every account of the current configuration and of the configurations that were in force
+// before (governance may drop an account while something is still booked for it; it is paid all the same).
 func (m *DistModel) accByKey() map[string]DAcc {
-	r := map[string]DAcc{}
+	if m.known == nil {
+		m.known = map[string]DAcc{}
+	}
+	r := m.known
 	for _, sd := range m.Cfg.Subs {
 		for _, s := range sd.Sources {
 			r[s.Key()] = s
